@@ -130,6 +130,36 @@ pub fn threads(sink: &mut Sink, seed: u64, thorough: bool, grp0: u64) {
     let mut r = rng(seed, 41);
     let programs = if thorough { 400 } else { 40 };
     let mut grp = grp0;
+    // Cold start: the very first builds and renderings of this process happen on 12 threads released together by a barrier
+    // (whatever the crate initialises on first use is initialised under contention); all of them build the same request and
+    // render their own result, so all results must be equal - and equal to what the same request gives later on.
+    {
+        grp += 1;
+        let shared = Arc::new({ let mut b = QRBuilder::new(INPUTS[0].to_vec()); apply_set(&mut b, 0, 1); b });
+        let barrier = Arc::new(std::sync::Barrier::new(12));
+        let handles: Vec<_> = (1..=12u64).map(|t| { let (shared, barrier) = (shared.clone(), barrier.clone()); std::thread::spawn(move || {
+            barrier.wait();
+            let res = std::panic::catch_unwind(std::panic::AssertUnwindSafe(|| shared.build()));
+            let mut evs = Vec::new();
+            match res {
+                Ok(Ok(qr)) => {
+                    evs.push(json!({"ev": "HBuild", "tid": t, "seq": 1, "bid": 1000, "tag": "hbuild:cold", "lite": 0, "out": qr_json(&qr)}));
+                    let before = qr_modules(&qr);
+                    for (which, bytes) in [(0usize, qr.to_str().into_bytes()), (1, svg_builder(&[]).to_str(&qr).into_bytes()), (2, image_builder(&[]).to_pixmap(&qr).data().to_vec())] {
+                        evs.push(json!({"ev": "HRender", "tid": t, "seq": 2 + which, "tag": format!("hrender:cold:{}", ["text", "svg", "raster"][which]), "qrid": 0, "renderer": which * 10 + 9,
+                                        "hash": fnv(&bytes).to_vec(), "qr_unchanged": (before == qr_modules(&qr)) as u8}));
+                    }
+                }
+                Ok(Err(e)) => evs.push(json!({"ev": "HBuild", "tid": t, "seq": 1, "bid": 1000, "tag": "hbuild:cold", "lite": 0, "out": {"kind": "Err", "why": err_name(&e)}})),
+                Err(p) => evs.push(json!({"ev": "HBuild", "tid": t, "seq": 1, "bid": 1000, "tag": "hbuild:cold", "lite": 0, "out": {"kind": "Panic", "why": format!("Panic:{}", panic_msg(p))}})),
+            }
+            evs
+        }) }).collect();
+        let id = sink.id();
+        sink.emit(&json!({"ev": "HNew", "id": id, "grp": grp, "tid": 0, "seq": 1, "bid": 1000, "tag": "hnew", "input": INPUTS[0].to_vec()}));
+        let mut ev = set_event(grp, 0, 2, 1000, 0, 1); ev["id"] = json!(sink.id()); sink.emit(&ev);
+        for h in handles { for mut e in h.join().unwrap_or_default() { e["id"] = json!(sink.id()); e["grp"] = json!(grp); sink.emit(&e); } }
+    }
     for pi in 0..programs {
         grp += 1;
         let nthreads = [1usize, 2, 4, 8, 16][pi % 5];
